@@ -90,6 +90,11 @@ class FullFrontend(ConstrainedFrontend):
 
         solver = self._tls.solver
         if self._solver_backend.reuse_z3_solver:
+            if getattr(solver, "_claripy_user", None) is not self._tls:
+                # another frontend has used the shared per-thread solver since we last did, and what it asserted
+                # must go: solver() resets it
+                solver = self._tls.solver = self._solver_backend.solver(timeout=self.timeout, max_memory=self.max_memory)
+                solver._claripy_user = self._tls
             # we must re-add all constraints
             self._add_constraints()
         return solver
